@@ -531,3 +531,108 @@ def G38_tolerance_dimension(repo, clause, scope=ALL_LIB):
                 obs.append(Ob("G38", clause, fn, c, True, "`%s` in %s: deviation of degree %s against atol" % (ast.unparse(c)[:50], fn.qualname, d), slot="tol-compare:%s:%s" % (fn.qualname, ast.unparse(other)[:30])))
     obs.append(Ob("G38", clause, fns[0], fns[0].node, True, "%d functions in scope, %d direct comparisons with atol inspected" % (len(fns), n), construct="tolerance dimension inventory", slot="inventory"))
     return obs
+
+
+def E1p_section_protocol(repo, clause, func="Atoms.load_lmpdat"):
+    """Protocol of the section scanner of the LAMMPS reader (shape-independent: only the state variable and the tests on it are looked at):
+    (a) a section ENDS: inside the line loop the state variable that the row dispatch compares with the section names is reset to None on a path taken for blank lines -
+        otherwise the rows of a following section the reader does not handle (PairIJ Coeffs, Velocities ...) are read as rows of the current one;
+    (b) the section keyword is recognised on the line WITHOUT its comment: the name tested with `in <handled sections>` is, through every reaching definition, derived from the
+        part in front of '#' (`Atoms # full`, `Pair Coeffs # lj/cut` are ordinary LAMMPS headers)."""
+    fn = repo.fn(func)
+    obs = []
+    loops = [x for x in fn.own_nodes() if isinstance(x, ast.For)]
+    # the state variable: compared with >= 5 different string constants
+    cmp_count = {}
+    for c in [x for x in fn.own_nodes() if isinstance(x, ast.Compare) and len(x.ops) == 1 and isinstance(x.ops[0], ast.Eq) and isinstance(x.left, ast.Name)
+              and isinstance(const_value(x.comparators[0]), str)]:
+        cmp_count.setdefault(c.left.id, set()).add(const_value(c.comparators[0]))
+    state = [k for k, v in cmp_count.items() if len(v) >= 5]
+    if len(state) != 1:
+        return [Ob("E1p", clause, fn, fn.node, False, "section state variable of %s not identified (names compared with >= 5 section names: %s)" % (func, state), construct="current_section == '<name>'",
+                   slot="state-variable", undecided=True)]
+    S = state[0]
+    loop = None
+    for l in loops:
+        if any(isinstance(x, ast.Compare) and isinstance(x.left, ast.Name) and x.left.id == S for x in ast.walk(l)):
+            loop = l
+            break
+    if loop is None:
+        return [Ob("E1p", clause, fn, fn.node, False, "line loop of %s not found" % func, slot="line-loop", undecided=True)]
+    # (a)
+    resets = [x for x in ast.walk(loop) if isinstance(x, ast.Assign) and any(isinstance(t, ast.Name) and t.id == S for t in x.targets) and isinstance(x.value, ast.Constant) and x.value.value is None]
+
+    def _blank_guard(st):
+        for t, pol, k in norm_guards(fn, st, stop=loop):
+            parts = [(t, pol)]
+            if isinstance(t, ast.BoolOp):
+                parts += [(v, pol) for v in t.values]
+            for pt, pl in parts:
+                if isinstance(pt, ast.Compare) and len(pt.ops) == 1 and isinstance(pt.ops[0], ast.Eq) and const_value(pt.comparators[0]) == "" and pl:
+                    return True
+                if isinstance(pt, ast.Compare) and len(pt.ops) == 1 and isinstance(pt.ops[0], ast.NotEq) and const_value(pt.comparators[0]) == "" and not pl:
+                    return True
+                if isinstance(pt, ast.Name) and not pl:
+                    return True      # `if not line:`
+                ml = implied_min_len(pt, not pl)
+                if ml is not None and ml[1] >= 1:
+                    return True      # len(line) == 0 taken positively
+        return False
+    ends = [r for r in resets if _blank_guard(r)]
+    obs.append(Ob("E1p", clause, fn, ends[0] if ends else loop, bool(ends),
+                  "section state `%s` %s" % (S, "is reset to None on a blank-line path inside the line loop (a section ends)" if ends else
+                                             "is NEVER reset to None on a blank line inside the line loop: once a handled section has started, the rows of any following section the reader does not "
+                                             "handle are read as rows of that section (extra 'masses', extra 'atoms')"),
+                  construct=None if ends else "for ... in f: ... %s = None" % S, slot="section-ends", positive="robust"))
+    # (b)
+    def _is_name_table(nm_):
+        # a literal list / tuple / set of >= 5 section names (not a dict keyed by them: that is the row dispatch, tested on the state variable)
+        for d_ in fn.own_nodes():
+            if isinstance(d_, ast.Assign) and any(isinstance(t_, ast.Name) and t_.id == nm_ for t_ in d_.targets) and isinstance(d_.value, (ast.List, ast.Tuple, ast.Set)) \
+                    and len(d_.value.elts) >= 5 and all(isinstance(const_value(e_), str) for e_ in d_.value.elts):
+                return True
+        return False
+    tests = [x for x in ast.walk(loop) if isinstance(x, ast.Compare) and len(x.ops) == 1 and isinstance(x.ops[0], ast.In) and isinstance(x.left, ast.Name) and x.left.id != S
+             and isinstance(x.comparators[0], ast.Name) and _is_name_table(x.comparators[0].id)]
+    for t in tests:
+        nm = t.left.id
+        st = fn.stmt_of(t)
+
+        def derives(stmt, name, depth=0, seen=None):
+            seen = seen or set()
+            defs = fn.rd.defs_at(stmt, name)
+            if not defs or depth > 6:
+                return False
+            for d in defs:
+                if not isinstance(d, ast.AST):
+                    return False
+                if id(d) in seen:
+                    continue
+                seen.add(id(d))
+                v = d.value if isinstance(d, ast.Assign) else None
+                if v is None:
+                    return False     # loop target: the raw line
+                if any(isinstance(y, ast.Call) and call_name(y) in ("split", "partition") and y.args and const_value(y.args[0]) == "#" for y in ast.walk(v)):
+                    continue
+                # taken only when the line has no '#' at all: nothing to strip
+                no_hash = False
+                for gt, gpol, gk in norm_guards(fn, d, stop=loop):
+                    if isinstance(gt, ast.Compare) and len(gt.ops) == 1 and const_value(gt.left) == "#" and \
+                            ((isinstance(gt.ops[0], ast.In) and not gpol) or (isinstance(gt.ops[0], ast.NotIn) and gpol)):
+                        no_hash = True
+                if no_hash:
+                    continue
+                src = [y.id for y in ast.walk(v) if isinstance(y, ast.Name) and isinstance(y.ctx, ast.Load)]
+                src = [y for y in src if y not in ("np", "re")]
+                if not src or not all(derives(d, y, depth + 1, seen) for y in src):
+                    return False
+            return True
+        ok = derives(st, nm)
+        obs.append(Ob("E1p", clause, fn, t, ok,
+                      "section keyword test `%s` reads `%s`, which %s" % (ast.unparse(t), nm, "is the part of the line in front of '#' on every path" if ok else
+                                                                         "can still carry the trailing comment (some reaching definition is the raw line): a header such as 'Atoms # full' or "
+                                                                         "'Pair Coeffs # lj/cut' is not recognised and its rows are dropped or mis-filed"),
+                      slot="keyword-without-comment", positive="robust"))
+    if not tests:
+        obs.append(Ob("E1p", clause, fn, loop, False, "section keyword test `<line> in <handled sections>` not found", slot="keyword-without-comment", undecided=True))
+    return obs
